@@ -1136,8 +1136,10 @@ namespace awkward {
     std::vector<ssize_t> strides = strides_;
     ssize_t byteoffset = byteoffset_;
     if (copyarrays) {
-      NumpyArray tmp = contiguous();
-      if (ptr_.get() != tmp.ptr().get()) {
+      if (!iscontiguous()) {
+        // contiguous() makes a compact copy (an empty one has a null buffer, which
+        // says nothing about whether it is new)
+        NumpyArray tmp = contiguous();
         ptr = tmp.ptr();
         shape = tmp.shape();
         strides = tmp.strides();
